@@ -300,6 +300,7 @@ Section Alphabet.
 
   Definition ix_alpha (st : ix_state) : list N :=
     let e0 := match toks with (e, _, _) :: _ => e | [] => 0 end in
+    let e1 := fst (fst (last toks (0, false, false))) in      (* a token for another endpoint *)
     flat_map (fun s => match s with (v, l, p) =>
     flat_map (fun c =>
     flat_map (fun irr =>
@@ -310,9 +311,9 @@ Section Alphabet.
                  ix_word v l irr a b irr irr irr g e c p end) toks) bools
       | SEND => flat_map (fun g => map (fun r =>
                  ix_word v l irr irr irr irr irr r g e0 c p) bools) bools
-      | WFA => flat_map (fun f => map (fun h => match h with (a, n) =>
-                 ix_word v l f irr irr n a irr irr e0 c p end)
-                 [(false, false); (true, false); (false, true)]) bools
+      | WFA => flat_map (fun f => map (fun h => match h with (a, n, e) =>
+                 ix_word v l f irr irr n a irr irr e c p end)
+                 [(false, false, e0); (true, false, e0); (false, true, e0); (false, true, e1)]) bools
       end) irrs) clrs end) a_stream.
 End Alphabet.
 
@@ -346,7 +347,11 @@ End Alphabet.
          any other packet carries the toggle the host expects;
      V4  a packet the host takes is a prefix of the pending stream, contains a `last` byte at most as its
          final byte, and is zero-length if a ZLP is owed; a ZLP is owed exactly after the host took a
-         full-size packet ending in a `last` byte (so every transfer ends in a short or zero-length packet). *)
+         full-size packet ending in a `last` byte (so every transfer ends in a short or zero-length packet);
+     V5  a packet that is not a retry is either full-size, or ends in a `last` byte, or is the owed ZLP, or flush has been
+         asserted since the previous packet completed (no premature short packet in mid-transfer);
+     V6  stream.ready is high whenever the pending stream holds fewer than mps bytes and no `last` byte (the module never
+         refuses data while even its write buffer alone could not be full). *)
 Record sp_state := {
   s_pend : list (N * bool);
   s_h : bool;
@@ -355,12 +360,13 @@ Record sp_state := {
   s_retry : option (N * list N);       (* the last packet timed out: it must be sent again *)
   s_zlp : bool;                        (* a zero-length packet is owed *)
   s_in : list N;                       (* log: stream bytes accepted *)
-  s_host : list N                      (* log: bytes taken by the host *)
+  s_host : list N;                     (* log: bytes taken by the host *)
+  s_fl : bool                          (* flush has been asserted since the last packet completed *)
 }.
 
 Definition sp_init : sp_state :=
   {| s_pend := []; s_h := false; s_cur := None; s_wait := None; s_retry := None; s_zlp := false;
-     s_in := []; s_host := [] |}.
+     s_in := []; s_host := []; s_fl := false |}.
 
 Fixpoint bytes_eqb (a b : list N) : bool :=
   match a, b with
@@ -409,6 +415,10 @@ Section Spec.
     let pre := firstn n (s_pend s) in
     let v_take := (n <=? length (s_pend s))%nat && bytes_eqb bs (map fst pre) && last_only_at_end pre
                   && (negb (s_zlp s) || (n =? 0)%nat) in
+    let v_shape := match retry with
+                   | Some _ => true
+                   | None => (n =? mps)%nat || (if (n =? 0)%nat then s_zlp s else ends_with_last pre || s_fl s)
+                   end in
     ({| s_pend := if taken then skipn n (s_pend s) else s_pend s;
         s_h := if taken then negb (s_h s) else s_h s;
         s_cur := None;
@@ -416,8 +426,9 @@ Section Spec.
         s_retry := None;
         s_zlp := if taken then (n =? mps)%nat && ends_with_last pre else s_zlp s;
         s_in := s_in s;
-        s_host := if taken then s_host s ++ bs else s_host s |},
-     v_size && v_pid && (negb taken || v_take)).
+        s_host := if taken then s_host s ++ bs else s_host s;
+        s_fl := false |},
+     v_size && v_pid && v_shape && (negb taken || v_take)).
 
   (* 1. handshakes, judged on the state before this cycle: an ACK or a new token ends the wait for a handshake;
         a new token without ACK means the packet has to be sent again *)
@@ -428,11 +439,11 @@ Section Spec.
                   | Some (p, bs, _) => if i_newtok i && negb (i_ack i) then Some (p, bs) else None
                   | None => s_retry s
                   end;
-       s_zlp := s_zlp s; s_in := s_in s; s_host := s_host s |}.
+       s_zlp := s_zlp s; s_in := s_in s; s_host := s_host s; s_fl := s_fl s || i_flush i |}.
 
   Definition set_cur (s : sp_state) (c : option (list N)) : sp_state :=
     {| s_pend := s_pend s; s_h := s_h s; s_cur := c; s_wait := s_wait s; s_retry := s_retry s;
-       s_zlp := s_zlp s; s_in := s_in s; s_host := s_host s |}.
+       s_zlp := s_zlp s; s_in := s_in s; s_host := s_host s; s_fl := s_fl s |}.
 
   (* 2. the transmit side (s: state before the cycle, s1: after the handshake phase) *)
   Definition tx_phase (s s1 : sp_state) (i : ix_in) (o : ix_out) : sp_state * bool :=
@@ -462,10 +473,14 @@ Section Spec.
     {| s_pend := if b then s_pend s ++ [(i_payload i, i_last i)] else s_pend s;
        s_h := s_h s; s_cur := s_cur s; s_wait := s_wait s; s_retry := s_retry s; s_zlp := s_zlp s;
        s_in := if b then s_in s ++ [i_payload i] else s_in s;
-       s_host := s_host s |}.
+       s_host := s_host s; s_fl := s_fl s |}.
+
+  (* V6 *)
+  Definition ready_ok (s : sp_state) (o : ix_out) : bool := packet_due (s_pend s) || o_ready o.
 
   Definition c11_mon (s : sp_state) (i : ix_in) (o : ix_out) : option (sp_state * bool) :=
     if negb (c11_env s i) then None else
+    if negb (ready_ok s o) then Some (s, false) else
     let '(s2, ok) := tx_phase s (hs_phase s i) i o in
     Some (add_stream (i_valid i && o_ready o) i s2, ok).
 
@@ -521,12 +536,13 @@ Section Spec.
     let (bs, m) := dec_bytes m in (Some (p, bs, nb g), m).
 
   Definition sp_enc (s : sp_state) : N :=
-    pk 2 (b2n (s_h s)) (pk 2 (b2n (s_zlp s))
+    pk 2 (b2n (s_fl s)) (pk 2 (b2n (s_h s)) (pk 2 (b2n (s_zlp s))
       (enc_bytes (map (fun x => fst x + 256 * b2n (snd x)) (s_pend s))
         (enc_opt (match s_cur s with Some bs => Some (0, bs, false) | None => None end)
           (enc_opt (s_wait s)
-            (enc_opt (match s_retry s with Some (p, bs) => Some (p, bs, false) | None => None end) 0))))).
+            (enc_opt (match s_retry s with Some (p, bs) => Some (p, bs, false) | None => None end) 0)))))).
   Definition sp_dec (m : N) : sp_state :=
+    let f := m mod 2 in let m := m / 2 in
     let h := m mod 2 in let m := m / 2 in
     let z := m mod 2 in let m := m / 2 in
     let (pe, m) := dec_bytes m in
@@ -537,7 +553,7 @@ Section Spec.
        s_cur := match cu with Some (_, bs, _) => Some bs | None => None end;
        s_wait := wa;
        s_retry := match re with Some (p, bs, _) => Some (p, bs) | None => None end;
-       s_zlp := nb z; s_in := []; s_host := [] |}.
+       s_zlp := nb z; s_in := []; s_host := []; s_fl := nb f |}.
 
   (* the typed monitor over packed (input word, output word) pairs: 0 = accepted, k+1 = first violated cycle k
      (used as the runtime oracle at packet sizes where the N-packed monitor state would be too slow) *)
